@@ -81,6 +81,7 @@ func suiteTrigger(c *Ctx) {
 				cbCalls = append(cbCalls, fmt.Sprintf("%d/%d", uint64(h), uint64(v)))
 			}
 			armed, aH, aV, consumed := false, uint64(0), uint64(0), false
+			var armedAt time.Time
 			replay := strings.Join(seqs[i], ";")
 			viol := func(sig, what string) {
 				res.viol = append(res.viol, Violation{"C19", sig, what, replay})
@@ -94,6 +95,7 @@ func suiteTrigger(c *Ctx) {
 				case "register":
 					if !(armed && aH == h && aV == v) {
 						armed, aH, aV, consumed = true, h, v, false
+						armedAt = time.Now()
 					}
 					tr.RegisterOnElection(primitives.BlockHeight(h), primitives.View(v), cb)
 				case "stop":
@@ -118,6 +120,13 @@ func suiteTrigger(c *Ctx) {
 							viol("stale-trigger-delivered", fmt.Sprintf("trigger (%d,%d) delivered while armed for (%d,%d)", th, tv, aH, aV))
 						} else if consumed {
 							viol("double-trigger", fmt.Sprintf("second trigger for one arming of (%d,%d)", th, tv))
+						}
+						// not before the election timeout of the armed view (timers never fire early; scheduling only adds delay)
+						if armed && th == aH && tv == aV && !consumed {
+							want := time.Millisecond * time.Duration(uint64(1)<<tv) // base * 2^view, the suite's base is 1 ms and views stay below 4
+							if el := time.Since(armedAt); el < want {
+								viol("trigger-before-timeout", fmt.Sprintf("trigger (%d,%d) delivered %v after arming, before its election timeout %v", th, tv, el, want))
+							}
 						}
 						consumed = true
 					case <-time.After(200 * time.Millisecond):
